@@ -63,33 +63,35 @@ type bsLogEntry struct {
 type bsAbort struct{}
 
 type bsMachine struct {
-	prof     string // focus property ("" = every assertion active)
-	t        *rapid.T
-	st       *vkit.Stats
-	b        *bigbuff.Buffer
-	G        []int
-	base     int
-	closed   bool
-	cons     []*bsCons
-	next     int
-	cooldown time.Duration
-	cleaner  string // "unset" | "default" | "fixed" | "never" | "script"
-	fixMax   int
-	fixTgt   int
-	script   []int
-	scriptAt int
-	logOn    bool
-	logMu    sync.Mutex
-	log      []bsLogEntry
-	logSeen  int
-	fixedCB  int          // FixedBufferCleaner callback invocations
-	fixedBad string       // mismatch seen in a FixedBufferCleaner notification
-	allowed  map[int]bool // bases reachable through intermediate states of a compound step (no-log mode)
-	cfgDirty bool         // the cleaner was replaced and no state change (hence no cleaner pass) has happened since
-	winChg   bool         // a change landed strictly inside a cooldown window (not yet followed by an eviction)
-	lastChg  time.Time
-	simple   bool // the step consisted of exactly one state-changing library call
-	trace    []string
+	prof      string // focus property ("" = every assertion active)
+	t         *rapid.T
+	st        *vkit.Stats
+	b         *bigbuff.Buffer
+	G         []int
+	base      int
+	closed    bool
+	cons      []*bsCons
+	next      int
+	cooldown  time.Duration
+	cleaner   string // "unset" | "default" | "fixed" | "never" | "script"
+	fixMax    int
+	fixTgt    int
+	script    []int
+	scriptAt  int
+	logOn     bool
+	logMu     sync.Mutex
+	log       []bsLogEntry
+	logSeen   int
+	fixedCB   int          // FixedBufferCleaner callback invocations
+	fixedBad  string       // mismatch seen in a FixedBufferCleaner notification
+	allowed   map[int]bool // bases reachable through intermediate states of a compound step (no-log mode)
+	cdHold    time.Time    // a cooldown window of a previous configuration may still be pending until then
+	cdChanged bool
+	cfgDirty  bool // the cleaner was replaced and no state change (hence no cleaner pass) has happened since
+	winChg    bool // a change landed strictly inside a cooldown window (not yet followed by an eviction)
+	lastChg   time.Time
+	simple    bool // the step consisted of exactly one state-changing library call
+	trace     []string
 
 	// classification
 	nEvictOpen     int  // evictions that happened while a consumer was open
@@ -462,7 +464,7 @@ func (m *bsMachine) checkObservers() {
 	// reclamation (C04): cooldown elapsed since the last change => fully consumed prefix is gone
 	if !m.closed && !m.cfgDirty && m.on("C04") {
 		elapsed := time.Since(m.lastChg)
-		if m.cooldown == 0 || elapsed >= m.cooldown+time.Microsecond {
+		if (m.cooldown == 0 || elapsed >= m.cooldown+time.Microsecond) && !time.Now().Before(m.cdHold) {
 			switch m.cleaner {
 			case "unset", "default":
 				if tgt := m.defaultTarget(m.base); tgt != m.base {
@@ -1209,6 +1211,18 @@ func (m *bsMachine) ruleSetCleaner(t *rapid.T) {
 		t.Skip("default-config case")
 	}
 	m.drawCleaner(t)
+	if rapid.Bool().Draw(t, "newCooldown") {
+		// a different cooldown: a window that is pending right now still runs its old length; everything after it
+		// is governed by the new value
+		old := m.cooldown
+		m.cooldown = rapid.SampledFrom([]time.Duration{0, time.Microsecond, time.Millisecond, 10 * time.Millisecond, time.Second}).Draw(t, "cooldown")
+		if m.cooldown != old {
+			if h := time.Now().Add(old + time.Microsecond); h.After(m.cdHold) {
+				m.cdHold = h
+			}
+			m.cdChanged = true
+		}
+	}
 	err := m.b.SetCleanerConfig(bigbuff.CleanerConfig{Cleaner: m.makeCleaner(), Cooldown: m.cooldown})
 	if err != nil {
 		m.fail("C03/setcleaner-error", "SetCleanerConfig failed: %v", err)
@@ -1690,6 +1704,7 @@ func bsRun(t *rapid.T, st *vkit.Stats, prof string) {
 	flag(m.laggingSeen, "lagging-consumer")
 	flag(m.evictWhileUnc, "evict-with-uncommitted")
 	flag(m.inWindowChange, "change-inside-cooldown-window")
+	flag(m.cdChanged, "cooldown-reconfigured")
 	flag(m.closeUnpin, "close-unpinned")
 	flag(m.wokeBlockedGet, "woke-blocked-get")
 	flag(m.closeInFlight, "close-with-op-in-flight")
